@@ -136,25 +136,28 @@ def m2(ctx, rep, T):
         if c.get('f') in ('insert', 'extend') and isinstance(c.get('recv'), dict):
             n += 1
             src = vt.show(c['args'][-1])
-            root = prov_root(c['args'][-1])
-            ok = root == 'all_types'
+            roots = prov_roots(c['args'][-1])
+            ok = roots == {'all_types'}
             bad = False
             rep.check(ok and not bad, 'M2', f"import-name-source:{c['f']}#{n}", f'inserted from {src[:50]}', f"used_imports inserts `{src[:80]}` into the import list: imported names must be taken from the type set registered for the imported crate (all_types[crate]), not from what the source file merely mentions", {'file': f['file'], 'line': c.get('line')})
-    rep.floor('M2', 'import insertions', n, 3)
+    rep.floor('M2', 'import insertions', n, 2)   # one for the glob branch, at least one for named imports (branches may be merged)
     txt = json.dumps(f['loops']) + json.dumps(f['calls']) + json.dumps(f['lets'])
     loop = [l for l in f['loops'] if l.get('kind') == 'for']
     ok = bool(loop) and re.search(r'base_crate.{0,200}"op": "!="|"op": "!=".{0,600}base_crate', json.dumps(loop[0]['over'])) is not None and 'crate_name' in json.dumps(loop[0]['over'])
     rep.check(ok, 'M2', 'no-self-import:loop', 'imports of the current crate are skipped', 'used_imports no longer skips imports that reference the current crate: a module would import from itself', site)
-    fb = [l for l in f['lets'] if l.get('names') == ['fallback']]
-    ok = False
-    if fb:
-        j = json.dumps(fb[0]['v'])
-        # the find predicate must compare the candidate crate with the current crate
-        ok = re.search(r'"op": "!=".{0,1500}crate_name|crate_name.{0,1500}"op": "!="', j) is not None and '"find"' in j
-        if not ok:
-            # also inspect the calls recorded for the nested closure
-            preds = [c for c in f['calls'] if c.get('f') in ('find', 'find_map', 'filter') and any(fr.get('k') == 'closure' for fr in c['guard'])]
-            ok = any('!=' in vt.show(a) and 'crate_name' in vt.show(a) for c in preds for a in c.get('args', []))
+    # the re-export heuristic — any search through the *whole* crate table (`all_types.iter()…`), wherever it lives (a closure, a
+    # helper function, inline) — must exclude the current crate: its chain carries a `<crate of the candidate> != <current crate>` test
+    def scans_whole_table(v):
+        return any(x.get('k') == 'call' and x.get('f') in ('iter', 'into_iter', 'keys') and isinstance(vt.unvar(x.get('recv')), dict) and vt.unvar(x['recv']).get('k') == 'atom'
+                   and vt.unvar(x['recv']).get('root') == 'all_types' and not vt.unvar(x['recv']).get('path') for x in vt.walk(v))
+    # judged where it matters: the names (and crate keys) that are put into the import list
+    tops = [a_ for c in f['calls'] if c.get('f') in ('insert', 'extend', 'entry', 'or_insert', 'BTreeSet::from') for a_ in c.get('args', [])]
+    scans = [t for t in tops if isinstance(t, dict) and scans_whole_table(t)]
+    ok = bool(scans)
+    for t in scans:
+        j = json.dumps(t)
+        if not (re.search(r'"op": "!=".{0,2500}crate_name|crate_name.{0,2500}"op": "!="', j) and re.search(r'"(find|find_map|filter|flat_map|filter_map)"', j)):
+            ok = False
     rep.check(ok, 'M2', 'no-self-import:fallback', 're-export fallback never picks the current crate', "the re-export fallback of used_imports searches all crates without excluding the current one (`k != &data.crate_name`): a module-qualified reference to a type of the same crate makes the generated file import from itself", site)
     # prefix agreement between imported names and definitions (Kotlin)
     ki = ctx.fn('Kotlin::write_imports', file='kotlin.rs')
@@ -165,6 +168,63 @@ def m2(ctx, rep, T):
                 imp = alt
     has_prefix = bool(imp) and any(c[0] == 'atom' and c[1] == 'Kotlin.prefix' for c in imp)
     rep.check(has_prefix, 'M2', 'kotlin:import-prefix', 'imported name carries the prefix', "Kotlin imports `<package>.<crate>.<Type>` with the bare type name, while every definition is written as <prefix><Type>: with --kotlin-prefix the import names a type the imported file does not define", {'file': ki['file'], 'line': ki['line']})
+
+
+def prov_roots(v, proj=(), depth=0):
+    """Set of root parameters a value can be drawn from, over all its alternatives (`a.or_else(|| b)`, match arms, if/else),
+    following receivers / payloads / elements and resolving tuple projections (`(crate, ty).1`); '?' marks an alternative
+    whose origin cannot be followed."""
+    if depth > 120 or not isinstance(v, dict):
+        return {'?'}
+    k = v.get('k')
+    if k in ('var', 'try', 'some', 'paren', 'ref', 'deref'):
+        return prov_roots(v.get('v'), proj, depth + 1)
+    if k in ('payload', 'elem'):
+        return prov_roots(v.get('of'), proj, depth + 1)
+    if k == 'field':
+        nm = str(v.get('name', ''))
+        if nm.isdigit():
+            return prov_roots(v.get('base'), (int(nm),) + tuple(proj), depth + 1)
+        return prov_roots(v.get('base'), proj, depth + 1)
+    if k == 'tuple':
+        items = v.get('items') or []
+        if proj and proj[0] < len(items):
+            return prov_roots(items[proj[0]], proj[1:], depth + 1)
+        return set().union(*[prov_roots(x, (), depth + 1) for x in items]) if items else {'?'}
+    if k in ('cond',):
+        return prov_roots(v.get('t'), proj, depth + 1) | prov_roots(v.get('e'), proj, depth + 1)
+    if k == 'match':
+        out = set()
+        for a in v.get('arms', []):
+            av = a.get('v')
+            if isinstance(av, dict) and av.get('k') in ('never', 'none', 'unit'):
+                continue
+            out |= prov_roots(av, proj, depth + 1)
+        return out or {'?'}
+    if k == 'alt':
+        return set().union(*[prov_roots(x, proj, depth + 1) for x in v.get('alts', [])]) if v.get('alts') else {'?'}
+    if k == 'closure':
+        return prov_roots(v.get('body'), proj, depth + 1)
+    if k in ('none', 'unit', 'never'):
+        return set()
+    if k == 'call':
+        f = v.get('f')
+        if v.get('recv') is not None:
+            if f in ('or_else', 'or', 'unwrap_or_else', 'unwrap_or', 'xor'):
+                return prov_roots(v['recv'], proj, depth + 1) | set().union(*[prov_roots(a, proj, depth + 1) for a in v.get('args', [])])
+            if f in ('map', 'and_then', 'filter_map', 'find_map', 'flat_map') and v.get('args'):
+                clo = vt.strip(v['args'][0])
+                if isinstance(clo, dict) and clo.get('k') == 'closure':
+                    return prov_roots(clo.get('body'), proj, depth + 1)
+            return prov_roots(v['recv'], proj, depth + 1)
+        if f in ('BTreeSet::from', 'Some', 'Ok') and v.get('args'):
+            return prov_roots(v['args'][0], proj, depth + 1)
+        return {'?'}
+    if k == 'array':
+        return set().union(*[prov_roots(x, proj, depth + 1) for x in v.get('items', [])]) if v.get('items') else {'?'}
+    if k == 'atom':
+        return {v.get('root')}
+    return {'?'}
 
 
 def prov_root(v, depth=0):
